@@ -34,7 +34,10 @@ def make_case(rng, i, tier):
     if cfg["bins"] not in tc.BINS_REGULAR:
         cfg["bins"] = 1
     route = rng.choice(["split_q", "split_noq", "direct", "raw"])
-    pc = gen.piece(rng, ntracks=cfg["tracks"], lens=gen.DEFAULT_NOTE_VALUES, ongrid=GRID, ragged=(route != "raw"), keys=False,
+    # the routes that do not re-quantise may place onsets anywhere on the tokeniser's own step grid; a third-of-a-beat grid
+    # (multiples of 3) puts onsets 9 or 15 ticks in front of bar lines, so that rests across bar lines need mixed step sizes
+    grid = (lambda x: x % 3 == 0) if (route in ("direct", "raw") and i % 2 == 1) else GRID
+    pc = gen.piece(rng, ntracks=cfg["tracks"], lens=gen.DEFAULT_NOTE_VALUES, ongrid=grid, ragged=(route != "raw"), keys=False,
                    cross_bars=(route not in ("direct", "raw")) and rng.random() < 0.5, meta=0, nseg=(1, 3), nbars=(1, 3), max_notes=7,
                    sigs=[(4, 4), (3, 4), (6, 8), (2, 4), (5, 4), (2, 2), (7, 8), (3, 8), (8, 8), (8, 8), (12, 8)], pitches=(60, 62, 72))
     if route == "direct" and rng.random() < 0.6:
@@ -78,6 +81,26 @@ def make_case(rng, i, tier):
                 t.setdefault("extra", []).append(["cc", tick, 0, r2.randrange(1, 100), r2.randrange(0, 127)])
             if any(e[0] in ("cc", "pc") for e in t.get("extra", [])):
                 pc["controls"] = True
+    if i % 5 == 2 and len(pc["bars"]) >= 3:
+        # ostinato: a later bar repeats an earlier bar note for note (in every track), with other material in between — two
+        # calls see identical content while the carried running values / clock differ
+        import random
+        r8 = random.Random(f"c03-ostinato:{i}")
+        bars = pc["bars"]
+        pairs = [(a, c) for a in range(len(bars)) for c in range(a + 2, len(bars)) if bars[a][1] == bars[c][1] and tuple(bars[a][2]) == tuple(bars[c][2])]
+        if pairs:
+            a, c = r8.choice(pairs)
+            (a0, al, _), (c0, cl, _) = bars[a], bars[c]
+            for t in pc["tracks"]:
+                inside = [n for n in t["notes"] if a0 <= n[2] and n[2] + n[3] <= a0 + al]
+                t["notes"] = [n for n in t["notes"] if not (c0 <= n[2] < c0 + cl) and not (n[2] < c0 < n[2] + n[3])]
+                t["notes"] += [[n[0], n[1], n[2] - a0 + c0, n[3], n[4]] for n in inside]
+                if t.get("pad") is None or t["pad"] < c0 + cl:
+                    t["pad"] = max(t.get("pad") or 0, c0 + cl) if inside else t.get("pad")
+            pc["ostinato"] = [a, c]
+            # ... under running values with something left unfused (a prefix token is elided when it repeats the carried value)
+            cfg["flags"][0] = True
+            cfg["flags"][r8.choice([1, 2, 3])] = False
     if route == "raw":
         # chunks are plain pieces of the whole-bar padded tracks (no Bar objects, hence no signature event at every bar
         # start): the carried state dictionary is the only memory of the signature in force
@@ -108,6 +131,8 @@ def run(case, ctx):
     LOG.n("c03.flags." + "".join("1" if x else "0" for x in cfg["flags"]))
     if pc.get("controls"):
         LOG.n("c03.piece_with_control_events")
+    if pc.get("ostinato"):
+        LOG.n("c03.bar_repeated_note_for_note")
     seqs = [gen.build_seq(t) for t in pc["tracks"]]
     raw = case["route"] == "raw"
     if raw:
@@ -148,7 +173,17 @@ def run(case, ctx):
         t_whole = tok.tokenise(whole)
     except Exception as e:
         LOG.n(f"c03.observed.whole_tokenise_raises.{type(e).__name__}")
-        return {"nontrivial": False, "fails": [], "shape": ("whole_raises", type(e).__name__)}
+        # equivalence cuts both ways: if one call over the whole piece is refused, one call per bar must be refused as well
+        fl = []
+        if not raw:
+            try:
+                sd0 = {}
+                for k in range(nb):
+                    tok.tokenise([Bar.to_sequence([trk[k].copy()]) for trk in tb], state_dict=sd0)
+                fl.append(fail("whole_piece_refused_but_bar_by_bar_accepted", {"error": f"{type(e).__name__}: {str(e)[:120]}", "bars": nb}))
+            except Exception:
+                pass
+        return {"nontrivial": False, "fails": fl, "shape": ("whole_raises", type(e).__name__)}
     ref = _detok_obs(tok, t_whole)
     if nb <= 7:
         parts = [tuple(i + 1 for i, bit in enumerate(bits) if bit) for bits in itertools.product([0, 1], repeat=nb - 1)]
